@@ -461,9 +461,18 @@ func Mangle(r Rnd, method string, codec bool, structuralOnly bool, frame []byte)
 		case "compress-total-wrong":
 			binary.BigEndian.PutUint32(cells, binary.BigEndian.Uint32(cells)+uint32(1+r.Intn(100)))
 		case "compress-total-huge":
-			binary.BigEndian.PutUint32(cells, uint32(1<<20+r.Intn(1<<23)))
+			n := uint32(1<<20 + r.Intn(1<<23))
+			if r.Chance(0.3) {
+				n = []uint32{0x7fffffff, 0x80000000, 0xfffffffc, 0xffffffff}[r.Intn(4)]
+			}
+			binary.BigEndian.PutUint32(cells, n)
 		case "compress-chunk-past":
-			binary.BigEndian.PutUint32(cells[4:], uint32(len(cells)+r.Intn(1<<20)))
+			n := uint32(len(cells) + r.Intn(1<<20))
+			if r.Chance(0.4) {
+				// boundary values of the 32-bit length field
+				n = []uint32{0x7fffffff, 0x80000000, 0xfffffffb, 0xfffffffc, 0xfffffffd, 0xfffffffe, 0xffffffff}[r.Intn(7)]
+			}
+			binary.BigEndian.PutUint32(cells[4:], n)
 		case "compress-chunk-zero":
 			binary.BigEndian.PutUint32(cells[4:], 0)
 		case "compress-chunk-garbage":
